@@ -801,12 +801,17 @@ class GroupByReduction(Reduction, GroupByBase):
         return groupby_projection(self, parent, dependents)
 
     @functools.cached_property
+    def _dropna(self):
+        # pandas reads an explicit ``dropna=None`` as False; its default is True
+        return True if self.dropna is None else self.dropna
+
+    @functools.cached_property
     def combine_kwargs(self):
-        return {"levels": self.levels, "observed": self.observed, "dropna": self.dropna}
+        return {"levels": self.levels, "observed": self.observed, "dropna": self._dropna}
 
     @functools.cached_property
     def chunk_kwargs(self):
-        return {"observed": self.observed, "dropna": self.dropna}
+        return {"observed": self.observed, "dropna": self._dropna}
 
     @functools.cached_property
     def aggregate_kwargs(self):
@@ -814,7 +819,7 @@ class GroupByReduction(Reduction, GroupByBase):
             "levels": self.levels,
             "sort": self.sort,
             "observed": self.observed,
-            "dropna": self.dropna,
+            "dropna": self._dropna,
         }
 
 
